@@ -163,3 +163,26 @@ def topo_order_violations(sim):
                 if id(s) in pos and pos[id(s)] <= pos[id(o)] and s is not o:
                     bad.append((o.getFullPath(), s.getFullPath()))
     return bad
+
+
+# --------------------------------------------------------------------------- division by zero probe
+
+def _install_divzero_probe():
+    """Div / Mod by zero is documented as nondeterministic (random result).  The probe marks a leaf at the moment
+    it evaluates with a zero divisor - also inside a clk(n) call, where the harness cannot look - so that comparisons
+    can exclude everything downstream of it (netlist.update_poison)."""
+    from py4hw.logic.arithmetic import Div, Mod
+    for cls in (Div, Mod):
+        if getattr(cls.propagate, '_dsim_probe', False):
+            continue
+        orig = cls.propagate
+
+        def propagate(self, _orig=orig):
+            if self.b.get() == 0:
+                self._dsim_divzero = True
+            _orig(self)
+        propagate._dsim_probe = True
+        cls.propagate = propagate
+
+
+_install_divzero_probe()
